@@ -332,13 +332,10 @@ unsafe impl<T: Send + Sync> Sync for Weak<T> {}
 
 impl<T> Clone for Weak<T> {
     fn clone(&self) -> Self {
-        let weak = Self { ptr: self.ptr };
-        unsafe {
-            if let Some(cnt) = weak.ptr.as_raw().as_ref() {
-                cnt.increment_weak(1);
-            }
-        }
-        weak
+        // Count first: if the count is refused (overflow), no handle must exist whose drop
+        // would release a share that was never taken.
+        self.increment_weak();
+        Self { ptr: self.ptr }
     }
 }
 
@@ -484,9 +481,11 @@ impl<'g, T> WeakSnapshot<'g, T> {
     /// Creates an [`Weak`] pointer by incrementing the weak reference counter.
     #[inline]
     pub fn counted(self) -> Weak<T> {
-        let weak = Weak::from_raw(self.ptr);
-        weak.increment_weak();
-        weak
+        // Count first, see `Weak::clone`.
+        if let Some(cnt) = unsafe { self.ptr.as_raw().as_ref() } {
+            cnt.increment_weak(1);
+        }
+        Weak::from_raw(self.ptr)
     }
 
     /// Tries creating a [`Snapshot`] pointer to the same object.
